@@ -92,7 +92,7 @@ def main():
                         what.append(json.load(open(rp)).get("what", "")[:300])
                     except Exception:
                         pass
-            meta["our_checks"][c] = {"exit": rc_k, "lines": lines[:6], "what": what[:3], "wall_s": round(time.time() - t0, 1)}
+            meta["our_checks"][c] = {"exit": rc_k, "lines": ([l for l in lines if l.startswith("VIOLATION")] + [l for l in lines if not l.startswith("VIOLATION")])[:8], "what": what[:3], "wall_s": round(time.time() - t0, 1)}
         dst.mkdir(parents=True, exist_ok=True)
         for f in src.iterdir():
             if f.is_file() and src != dst:
